@@ -529,3 +529,48 @@ def with_lens(rng, at, height=0.15):
     t.cells[lens] = [q, p, m] if a_left else [p, q, m]
     t.meta["lens"] = [sorted(k), m]
     return t
+
+
+def with_wedge(rng, at, depth=0.2):
+    """a small triangular cell wedged into the interface between two cells A and B, so that A and B share TWO separate
+    interfaces (p-w1 and w2-q) with the wedge (w1, w2, w3) between them on B's side.  Returns the new tissue or None."""
+    jc = at.jcells()
+    cand = sorted((k for k, cs in at.E.items() if len(cs) == 2 and all(len(jc[j]) >= 3 for j in k)), key=sorted)
+    if not cand:
+        return None
+    k = cand[int(rng.integers(len(cand)))]
+    p, q = at.ends(k)
+    A, B = at.E[k]
+    cyc = at.cells[A]
+    a_left = cyc[(cyc.index(p) + 1) % len(cyc)] == q
+    t = at.copy()
+    zp, zq = t.J[p], t.J[q]
+    u = zq - zp
+    L = abs(u)
+    nB = (-1j if a_left else 1j) * u / L
+    w1, w2, w3 = max(t.J) + 1, max(t.J) + 2, max(t.J) + 3
+    t.J[w1], t.J[w2], t.J[w3] = zp + 0.35 * u, zp + 0.65 * u, zp + 0.5 * u + depth * L * nB
+    W = max(t.cells) + 1
+    tk = t.T.pop(k, 1.0)
+    del t.E[k]
+    del t.PHI[k]
+    for key, cs in ((frozenset((p, w1)), [A, B]), (frozenset((w1, w2)), [A, W]), (frozenset((w2, q)), [A, B]),
+                    (frozenset((w2, w3)), [B, W]), (frozenset((w3, w1)), [B, W])):
+        t.E[key] = cs
+        t.PHI[key] = 0.0
+        t.T[key] = tk
+
+    def splice(cycle, first, second, between):
+        i = cycle.index(first)
+        assert cycle[(i + 1) % len(cycle)] == second
+        return cycle[:i + 1] + between + cycle[i + 1:]
+    if a_left:
+        t.cells[A] = splice(t.cells[A], p, q, [w1, w2])
+        t.cells[B] = splice(t.cells[B], q, p, [w2, w3, w1])
+        t.cells[W] = [w1, w3, w2]
+    else:
+        t.cells[A] = splice(t.cells[A], q, p, [w2, w1])
+        t.cells[B] = splice(t.cells[B], p, q, [w1, w3, w2])
+        t.cells[W] = [w1, w2, w3]
+    t.meta["wedge"] = [sorted(k), [w1, w2, w3]]
+    return t
